@@ -2,6 +2,7 @@ import Ucfg.Lemmas.Forest
 import Ucfg.Lemmas.ForestSet
 import Ucfg.Lemmas.ForestPlacedSet
 import Ucfg.Lemmas.ForestBuild
+import Ucfg.Lemmas.ForestPlacedDel
 /-!
   C15 — Path, Parent, FlattenedKeys and diff describe the actual structure.
 
@@ -25,8 +26,9 @@ import Ucfg.Lemmas.ForestBuild
     (`set_keeps_positions`) and so by every history of such operations (`history_keeps_positions`); and under `WP` what
     `Path()` returns for a node reached from a root along entries is the list of keys and indices that led to it
     (`wp_path_is_position`).  Outside: SetChild of a config that already has a parent (known finding D20 - it breaks
-    `WP`, `attach_attached_child_keeps_old_context`), Remove (its renumbering is `delAt_renumbers`), NewFrom's
-    normalisation (glue).
+    `WP`, `attach_attached_child_keeps_old_context`).  Remove keeps `WP` as single steps (`remove_name_keeps_positions`,
+    `remove_index_keeps_positions` for lists whose nodes are listed once); NewFrom and Merge of source values are part of
+    the histories (`HOp.new`, `HOp.mergeVal`).
   What is *not* proved: that every public operation is a composition of these primitives (that is the reading of
   merge.go/path.go the model's header records, checked on histories through the fingerprint hook), and the claim for a
   node attached at two positions (known finding D20).
@@ -613,5 +615,132 @@ theorem wpB_sound {h : Heap} (hb : wpB h = true) : WP h := by
 /-- the two-root heap is well placed; so is what the merge makes of it (by the theorem, and by the check) -/
 example : WP exH := wpB_sound (by decide)
 example : (mergeH 20 20 .merge exH 0 3).map wpB = some true := by decide
+
+end Ucfg.C15
+
+/-! ### Remove -/
+namespace Ucfg.C15
+open Ucfg.Forest
+
+/-- Remove of a named setting keeps every stored position right -/
+theorem remove_name_keeps_positions (h : Heap) (to : Id) (name : String) (w : WP h) : WP (dictDel h to name) :=
+  dictDel_wp h to name w
+
+/-- removing a list element: the elements behind it move down and are renumbered.  The list's nodes have to be listed
+once: not also as named settings of the same node, and the node is not its own element (both hold in every heap a
+program can build without attaching a config twice). -/
+theorem remove_index_keeps_positions (h : Heap) (to : Id) (i : Nat) (w : WP h)
+    (hdisj : ∀ p f d a, getSub h to = some (p, f, d, a) → (∀ kc ∈ d, kc.2 ∉ a) ∧ to ∉ a) : WP (delAt h to i) := by
+  cases hg : getSub h to with
+  | none => unfold delAt; rw [hg]; exact w
+  | some q =>
+    obtain ⟨p, f, d, a⟩ := q
+    by_cases hi : i < a.length
+    · obtain ⟨hdis, hto⟩ := hdisj p f d a hg
+      have pl := placed_of_getSub w hg
+      have hnd : a.Nodup := wp_arr_nodup w hg
+      have hlt : ∀ c ∈ a, c < h.length := by
+        intro c hc
+        obtain ⟨k, hk⟩ := List.getElem?_of_mem hc
+        obtain ⟨b, hb⟩ := pl.2 k c hk
+        exact lt_of_getElem?_some hb
+      have hidx : IndexedFrom h to 0 a := by
+        intro j c hj
+        obtain ⟨b, hb⟩ := pl.2 j c hj
+        exact ⟨b, by simpa using hb⟩
+      -- the shape of the result
+      let a' := a.eraseIdx i
+      let cs := a'.drop i
+      let h1 := setBody h to (.sub d a')
+      have hdel : delAt h to i = renumber h1 cs i := by unfold delAt; rw [hg]; simp [hi, h1, cs, a']
+      have hcs_a : ∀ c, c ∈ cs → c ∈ a := fun c hc => List.mem_of_mem_eraseIdx (List.mem_of_mem_drop hc)
+      have s1 : SameCtx h h1 := (upd_setBody h to _).sameCtx
+      -- every node keeps its parent; nodes outside `cs` keep their name too
+      have keep_parent : ∀ x nd, h[x]? = some nd → ∃ f' b', (delAt h to i)[x]? = some (⟨nd.parent, f', b'⟩ : Node) ∧
+          (x ∉ cs → f' = nd.field) := by
+        intro x nd hx
+        obtain ⟨b1, hb1⟩ := s1.2 x nd hx
+        by_cases hxc : x ∈ cs
+        · obtain ⟨f', hf'⟩ := renumber_field_only cs h1 i x _ hb1
+          exact ⟨f', b1, by rw [hdel, hf'], fun hn => absurd hxc hn⟩
+        · exact ⟨nd.field, b1, by rw [hdel, renumber_other _ _ _ _ hxc, hb1], fun _ => rfl⟩
+      -- a child of a node other than `to` is not among the renumbered ones
+      have child_not_cs : ∀ x nd, h[x]? = some nd → x ≠ to → ∀ c ∈ nd.body.children, c ∉ cs := by
+        intro x nd hx hne c hc hcs
+        have hca := hcs_a c hcs
+        obtain ⟨k, hk⟩ := List.getElem?_of_mem hca
+        obtain ⟨b, hb⟩ := pl.2 k c hk
+        -- c stores `to` as its parent (element of to) and `x` (child of x)
+        have plx := w x nd hx
+        cases hbody : nd.body with
+        | prim k0 v0 => rw [hbody] at hc; simp [Body.children] at hc
+        | sub dx ax =>
+          rw [hbody] at hc plx
+          simp only [Body.children, List.mem_append, List.mem_map] at hc
+          rcases hc with ⟨kc, hkc, rfl⟩ | hc
+          · obtain ⟨b2, hb2⟩ := plx.1 kc hkc
+            rw [hb] at hb2
+            simp only [Option.some.injEq, Node.mk.injEq, Option.some.injEq] at hb2
+            exact hne hb2.1.symm
+          · obtain ⟨k2, hk2⟩ := List.getElem?_of_mem hc
+            obtain ⟨b2, hb2⟩ := plx.2 k2 c hk2
+            rw [hb] at hb2
+            simp only [Option.some.injEq, Node.mk.injEq, Option.some.injEq] at hb2
+            exact hne hb2.1.symm
+      obtain ⟨hgs, hidx'⟩ := delAt_renumbers h to i p f d a hg hi hnd hlt hto hidx
+      intro x nd' hx'
+      by_cases hxt : x = to
+      · -- the node written to: its new body
+        subst hxt
+        have : nd'.body = .sub d a' := by
+          have := getSub_node hgs
+          rw [this] at hx'
+          simp only [Option.some.injEq] at hx'
+          rw [← hx']
+        rw [this]
+        refine ⟨?_, ?_⟩
+        · intro kc hkc
+          obtain ⟨b, hb⟩ := pl.1 kc hkc
+          obtain ⟨f', b', hres, hf⟩ := keep_parent kc.2 _ hb
+          have : kc.2 ∉ cs := fun hc => hdis kc hkc (hcs_a _ hc)
+          rw [hf this] at hres
+          exact ⟨b', hres⟩
+        · intro j c hj
+          obtain ⟨b, hb⟩ := hidx' j c hj
+          exact ⟨b, by simpa using hb⟩
+      · -- any other node: it has the body it had, and none of its children was renumbered
+        have hxlt : x < h.length := by
+          have : x < (delAt h to i).length := lt_of_getElem?_some hx'
+          rw [hdel, renumber_length, setBody_length] at this
+          exact this
+        obtain ⟨nd, hnd0⟩ : ∃ nd, h[x]? = some nd := ⟨h[x], List.getElem?_eq_getElem hxlt⟩
+        have hbody : nd'.body = nd.body := by
+          have h1x : h1[x]? = some nd := by rw [setBody_other _ _ _ _ hxt]; exact hnd0
+          obtain ⟨f', hf'⟩ := renumber_field_only cs h1 i x nd h1x
+          rw [hdel, hf'] at hx'
+          simp only [Option.some.injEq] at hx'
+          rw [← hx']
+        rw [hbody]
+        have plx := w x nd hnd0
+        have hch := child_not_cs x nd hnd0 hxt
+        cases hb : nd.body with
+        | prim k0 v0 => trivial
+        | sub dx ax =>
+          rw [hb] at plx hch
+          refine ⟨?_, ?_⟩
+          · intro kc hkc
+            obtain ⟨b, hbb⟩ := plx.1 kc hkc
+            obtain ⟨f', b', hres, hf⟩ := keep_parent kc.2 _ hbb
+            have : kc.2 ∉ cs := hch kc.2 (by simp only [Body.children, List.mem_append, List.mem_map]; exact Or.inl ⟨kc, hkc, rfl⟩)
+            rw [hf this] at hres
+            exact ⟨b', hres⟩
+          · intro j c hj
+            obtain ⟨b, hbb⟩ := plx.2 j c hj
+            obtain ⟨f', b', hres, hf⟩ := keep_parent c _ hbb
+            have : c ∉ cs := hch c (by simp only [Body.children, List.mem_append]; exact Or.inr (List.mem_of_getElem? hj))
+            rw [hf this] at hres
+            exact ⟨b', hres⟩
+    · unfold delAt; rw [hg]; simp only [hi, if_false]; exact w
+
 
 end Ucfg.C15
